@@ -745,21 +745,30 @@ func (s FactSet) FindFact(pattern string, neg bool) (Fact, Bind, bool) {
 	return Fact{}, nil, false
 }
 
-// Holds reports whether the set establishes the (normalised) boolean term t
-// with the given polarity, splitting conjunctions / disjunctions as condFacts does.
+// Holds reports whether the set establishes the boolean term t with the given polarity: first
+// syntactically (splitting conjunctions / disjunctions as condFacts does), then by propositional
+// entailment over the comparison leaves (so a restated condition — distributed, factored, moved
+// into a predicate helper — is recognised).
 func (s FactSet) Holds(t *Term, val bool) bool {
 	if t == nil {
 		return false
 	}
+	if s.holdsSyntactic(t, val) {
+		return true
+	}
+	return s.entails(t, val)
+}
+
+func (s FactSet) holdsSyntactic(t *Term, val bool) bool {
 	if t.Op == "!" && len(t.A) == 1 {
-		return s.Holds(t.A[0], !val)
+		return s.holdsSyntactic(t.A[0], !val)
 	}
 	if s.Has(normFact(Fact{T: t, Neg: !val})) {
 		return true
 	}
 	all := func(v bool) bool {
 		for _, a := range t.A {
-			if !s.Holds(a, v) {
+			if !s.holdsSyntactic(a, v) {
 				return false
 			}
 		}
@@ -767,7 +776,7 @@ func (s FactSet) Holds(t *Term, val bool) bool {
 	}
 	any := func(v bool) bool {
 		for _, a := range t.A {
-			if s.Holds(a, v) {
+			if s.holdsSyntactic(a, v) {
 				return true
 			}
 		}
@@ -784,6 +793,127 @@ func (s FactSet) Holds(t *Term, val bool) bool {
 		return any(true)
 	}
 	return false
+}
+
+// propLeaves collects the propositional leaves of a boolean term (normalised, polarity-free).
+func propLeaves(t *Term, into map[string]bool) {
+	for t.Op == "!" && len(t.A) == 1 {
+		t = t.A[0]
+	}
+	if (t.Op == "&&" || t.Op == "||") && len(t.A) > 0 {
+		for _, a := range t.A {
+			propLeaves(a, into)
+		}
+		return
+	}
+	nf := normFact(Fact{T: t})
+	if nf.T.Op == "&&" || nf.T.Op == "||" || nf.T.Op == "!" {
+		if nf.T != t {
+			propLeaves(nf.T, into)
+			return
+		}
+	}
+	into[nf.T.String()] = true
+}
+
+// propEval evaluates a boolean term under an assignment of its leaves.
+func propEval(t *Term, asg map[string]bool) bool {
+	if t.Op == "!" && len(t.A) == 1 {
+		return !propEval(t.A[0], asg)
+	}
+	if t.Op == "&&" && len(t.A) > 0 {
+		for _, a := range t.A {
+			if !propEval(a, asg) {
+				return false
+			}
+		}
+		return true
+	}
+	if t.Op == "||" && len(t.A) > 0 {
+		for _, a := range t.A {
+			if propEval(a, asg) {
+				return true
+			}
+		}
+		return false
+	}
+	if t.IsAt("#true") {
+		return true
+	}
+	if t.IsAt("#false") {
+		return false
+	}
+	nf := normFact(Fact{T: t})
+	if nf.T.Op == "&&" || nf.T.Op == "||" {
+		return propEval(nf.T, asg) != nf.Neg
+	}
+	return asg[nf.T.String()] != nf.Neg
+}
+
+// entails: every assignment of the leaves that satisfies the facts sharing a leaf with t gives t the value val.
+func (s FactSet) entails(t *Term, val bool) bool {
+	leaves := map[string]bool{}
+	propLeaves(t, leaves)
+	if len(leaves) == 0 {
+		return false
+	}
+	var rel []Fact
+	used := map[string]bool{}
+	// facts connected to t's leaves (two rounds of closure are enough for the conditions met here)
+	for round := 0; round < 2; round++ {
+		for _, k := range s.Sorted() {
+			if used[k] {
+				continue
+			}
+			f := s[k]
+			fl := map[string]bool{}
+			propLeaves(f.T, fl)
+			share := false
+			for l := range fl {
+				if leaves[l] {
+					share = true
+				}
+			}
+			if !share {
+				continue
+			}
+			used[k] = true
+			rel = append(rel, f)
+			for l := range fl {
+				leaves[l] = true
+			}
+		}
+	}
+	if len(rel) == 0 || len(leaves) > 16 {
+		return false
+	}
+	names := make([]string, 0, len(leaves))
+	for l := range leaves {
+		names = append(names, l)
+	}
+	sort.Strings(names)
+	asg := map[string]bool{}
+	sat := false
+	for m := 0; m < 1<<uint(len(names)); m++ {
+		for i, n := range names {
+			asg[n] = m&(1<<uint(i)) != 0
+		}
+		ok := true
+		for _, f := range rel {
+			if propEval(f.T, asg) == f.Neg {
+				ok = false
+				break
+			}
+		}
+		if !ok {
+			continue
+		}
+		sat = true
+		if propEval(t, asg) != val {
+			return false
+		}
+	}
+	return sat
 }
 
 func isUnsigned(T types.Type) bool {
